@@ -192,6 +192,16 @@ def run_item(item):
             p2 = copy.deepcopy(params)
             p2[g] = set_leaf(params[g], lv[i], lambda x: x * 1.5 + 1)
             reform("leaf", f"{g}/{'/'.join(map(str, lv[i]))}", p2, functions, allowed)
+    # (b2) rounding specifications: change base / direction / add the optional offset for ONE function
+    for g in my_groups:
+        specs = params[g].get("rounding", {}) if isinstance(params[g], dict) else {}
+        names = [t for t in specs if t in nodes]
+        for t in names[: (2 if item["tier"] == "quick" else 6)]:
+            for label, edit in (("offset", dict(to_add_after_rounding=5)), ("base", dict(base=specs[t]["base"] * 10)),
+                                ("direction", dict(direction="up" if specs[t]["direction"] != "up" else "down"))):
+                p2 = copy.deepcopy(params)
+                p2[g]["rounding"][t].update(edit)
+                reform("rounding", f"{g}/rounding/{t}:{label}", p2, functions, allowed_from({t}))
     # (c) functions
     rules = [t for t in nodes if t in functions and inspect.isfunction(functions[t])
              and not (getattr(functions[t], "__info__", None) or {}).get("skip_vectorization")]
@@ -217,7 +227,7 @@ def summarize(results, tier, seed):
     for r in ok:
         for k, v in r["kinds"].items():
             kinds[k] = kinds.get(k, 0) + v
-    inconclusive = [f"no reform of kind {k} observed" for k in ("identical", "group", "function") if not kinds.get(k)]
+    inconclusive = [f"no reform of kind {k} observed" for k in ("identical", "group", "function", "rounding") if not kinds.get(k)]
     failed = [x for r in ok for x in r["reform_failed"]]
     runs = sum(r["runs"] for r in ok)
     if failed and len(failed) > 0.3 * (runs + len(failed)):
